@@ -2,7 +2,7 @@
 HOOK_COMMITS = []
 ENGINES = [
     dict(name="driver", path="vf/driver.py", serves_properties=[], kind_free_text="builds targets against /repo's current tree, runs shards on 16 cores, merges reports, known-findings logic, evidence writer"),
-    dict(name="corpus+slots", path="vf/gen.py harness/engine.hpp harness/corpus_main.hpp model/peg_model.hpp", serves_properties=["C01"], kind_free_text="generate-compile-run grammar corpus and slot shapes, observer control with match() wrapper, reference PEG model, rapidcheck scripts"),
+    dict(name="corpus+slots", path="vf/gen.py harness/engine.hpp harness/corpus_main.hpp model/peg_model.hpp", serves_properties=["C01", "C09"], kind_free_text="generate-compile-run grammar corpus and slot shapes, observer control with match() wrapper, reference PEG model, rapidcheck scripts"),
     dict(name="enumerators+rapidcheck", path="targets/", serves_properties=["C17"], kind_free_text="total enumeration of finite spaces plus rapidcheck generators, explicit independent oracles"),
 ]
 NOTES = "All checks: ./check <id> --tier quick|thorough [--replay FILE]; seeds from VERIF_SEED; budgets are case counts."
@@ -14,6 +14,12 @@ CLAIMS = {
         technique="generated grammars x exhaustive short inputs and rapidcheck slot scripts, differential against a reference PEG interpreter",
         text="Exploration: seeded random core-operator grammars (recursive named rules) on all inputs up to length 5/7 plus random longer ones, and all 7x7 operator nestings over adversarial scripted leaves with rapidcheck-generated behaviours, under 5 compile-time configurations (apply mode, top-level rewind mode, void actions, tracking, control). Every rule invocation's verdict and the top-level result/consumption are compared with an independent PEG interpreter. Finds wrong rewind modes / missing guards in the core combinators within seconds (see DESIGN.md sensitivity table); cannot show absence.",
         design_ref="DESIGN.md sections 1.1-1.4, 2 C01",
+        note=CORPUS_NOTE),
+    "C09": dict(
+        engine="corpus+slots",
+        technique="slot-scripted rule shapes (rapidcheck) + generated grammars + exhaustive short inputs, differential against the documented expansion evaluated by a reference PEG interpreter",
+        text="Exploration: every convenience/contrib rule of the statement over adversarial scripted sub-rules (consume-then-fail with rewinding only when required, empty success, raise, throw), bounds 0..4, in three contexts (thorough: nested pairs), plus random mixed grammars and the byte-level rules on exhaustive short strings; compared (result, consumed prefix, blamed rule/message, per-invocation verdicts) with the [Equivalent] expansion from doc/Rule-Reference.md run through an independent interpreter. Found the opt_must defect (fixed, f97be25).",
+        design_ref="DESIGN.md sections 1.1-1.4, 2 C09",
         note=CORPUS_NOTE),
     "C17": dict(
         engine="enumerators+rapidcheck",
